@@ -1,6 +1,7 @@
 import NomtModel.Store.ImgCheck
 import NomtModel.Store.ConstantsAlloc
 import NomtModel.Store.ProbeInv
+import NomtModel.Store.FreeListBounded
 /-!
 # C19 — page accounting (the part checked on the on-disk image)
 
@@ -10,6 +11,15 @@ nobody claimed (`lnLeaked` / `bbnLeaked`, printed by the driver; a non-zero coun
 tools/check.py as `C19 leaked pages: …`).  The theorems state that the ownership monitor is sound: a
 successful `claim` is always the FIRST claim of a page inside `[1, bump)`, so an accepted image has no
 page that is both free and in use or used twice.
+
+The second part (T19.1 – T19.3) is about the allocator itself: `Store/FreeListModel.lean` mirrors
+`beatree/allocator/free_list.rs` (`pop`, `discard`, `commit` = `preallocate` + `push_and_encode` with the
+fragmentation logic) and `SyncAllocator::allocate` / `SyncFinisher::finish` at the level of page numbers;
+`Store/FreeListLemmas.lean` proves that page numbers are conserved through a sync.  The theorems are
+conditional on `finish … = some r`: the model answers `none` where the code would panic (`unwrap` of an
+exhausted `new_pages`, the `assert!`s of `push` / `push_and_encode`) or when the loop fuel runs out; that this
+never happens on well-shaped lists, and that the result is well-shaped again, is checked exhaustively for small
+capacities (`Store/FreeListBounded.lean`) but not proved in general.
 -/
 namespace Nomt.C19
 open Nomt Nomt.Store
@@ -76,5 +86,125 @@ theorem T19_occupied_is_stored_pages (T : Probe.Table) (hD : Probe.NoDup T) :
     (Probe.storedPages T).Nodup ∧ (Probe.storedPages T).length = Probe.occupied T ∧
     ∀ p, p ∈ Probe.storedPages T ↔ ∃ b, Probe.Stored T p b :=
   Probe.storedPages_spec hD
+/-! ## The allocator -/
+open Nomt.Store.FreeList
+
+/-- the live set after a sync is `(live \ freed) ∪ handedOut` -/
+theorem T19_0_mem_liveAfter (live freed handed : List Nat) (a : Nat) :
+    a ∈ liveAfter live freed handed ↔ (a ∈ live ∧ a ∉ freed) ∨ a ∈ handed := by
+  simp [liveAfter, List.mem_filter]
+
+/-- T19.1 **`allocate` hands out only pages that were free when the sync started** (C17's allocator clause).
+`s` is the state at `start_sync` (free list `s.portions`, frontier `s.bump`), `tracked ∪ live` partitions
+`[1, bump)`.  Whatever the allocation index, the page returned is an item of the free list as it was at the
+start of the sync, or lies at / beyond the old frontier; in particular it is not a live page, hence none of the
+pages this sync frees and pushes onto the list (`freed`, any set of live pages).  `allocate` is a function of
+the start state only: nothing `commit` pushes can influence it. -/
+theorem T19_1_allocate_only_free (s : State) (live freed : List Nat)
+    (hu : ∀ a, (a ∈ pagesOf s.portions ∨ a ∈ live) ↔ (1 ≤ a ∧ a < s.bump))
+    (hd : ∀ a, ¬ (a ∈ pagesOf s.portions ∧ a ∈ live))
+    (hsub : ∀ a ∈ freed, a ∈ live) (i : Nat) :
+    (allocate s i ∈ itemsOf s.portions ∨ s.bump ≤ allocate s i) ∧ allocate s i ∉ live ∧ allocate s i ∉ freed := by
+  have hnl : allocate s i ∉ live := by
+    intro hl
+    rcases allocate_cases s i with ⟨_, hm⟩ | ⟨_, he⟩
+    · exact hd _ ⟨mem_items_mem_pages _ _ hm, hl⟩
+    · have := (hu (allocate s i)).mp (Or.inr hl)
+      omega
+  refine ⟨?_, hnl, fun hf => hnl (hsub _ hf)⟩
+  rcases allocate_cases s i with ⟨_, hm⟩ | ⟨_, he⟩
+  · exact Or.inl hm
+  · exact Or.inr (by omega)
+
+/-- T19.2 **conservation**: if before the sync the pages tracked by the free list (free pages and the
+free-list pages themselves) and the live pages partition `[1, bump)` (union, disjoint, no duplicates), the
+sync performed `n` allocations and freed the duplicate-free set `freed ⊆ live`, then after
+`finish` the tracked pages and `live' = (live \ freed) ∪ handedOut` partition `[1, bump')` in the same sense —
+no page below the new frontier is leaked, none is both free and live, none is tracked twice — and the result
+is again a state at which a sync can start (`released = []`), so the statement iterates over any history. -/
+theorem T19_2_conservation (cap : Nat) (s : State) (n : Nat) (freed live : List Nat) (r : Committed)
+    (hb : 1 ≤ s.bump) (hrel : s.released = [])
+    (hu : ∀ a, (a ∈ pagesOf s.portions ∨ a ∈ live) ↔ (1 ≤ a ∧ a < s.bump))
+    (hd : ∀ a, ¬ (a ∈ pagesOf s.portions ∧ a ∈ live))
+    (htn : (pagesOf s.portions).Nodup) (hln : live.Nodup)
+    (hfn : freed.Nodup) (hsub : ∀ a ∈ freed, a ∈ live)
+    (hfin : finish cap s n freed = some r) :
+    let live' := liveAfter live freed (handedOut s n)
+    (∀ a, (a ∈ pagesOf r.state.portions ∨ a ∈ live') ↔ (1 ≤ a ∧ a < r.state.bump)) ∧
+    (∀ a, ¬ (a ∈ pagesOf r.state.portions ∧ a ∈ live')) ∧
+    (pagesOf r.state.portions).Nodup ∧ live'.Nodup ∧ r.state.released = [] := by
+  obtain ⟨_, hrel', hc⟩ := finish_conserves hb hrel (count_of_partition hu hd htn hln) hfn hsub hfin
+  obtain ⟨p1, p2, p3, p4⟩ := partition_of_count hc
+  exact ⟨p1, p2, p3, p4, hrel'⟩
+
+/-- T19.2, counting form: every page number of `[1, bump')` occurs exactly once in `tracked' ++ live'`, every
+other page number not at all. -/
+theorem T19_2_conservation_count (cap : Nat) (s : State) (n : Nat) (freed live : List Nat) (r : Committed)
+    (hb : 1 ≤ s.bump) (hrel : s.released = [])
+    (hpart : ∀ a, List.count a (pagesOf s.portions) + List.count a live = rng a 1 s.bump)
+    (hfn : freed.Nodup) (hsub : ∀ a ∈ freed, a ∈ live)
+    (hfin : finish cap s n freed = some r) (a : Nat) :
+    List.count a (pagesOf r.state.portions) + List.count a (liveAfter live freed (handedOut s n))
+      = rng a 1 r.state.bump :=
+  (finish_conserves hb hrel hpart hfn hsub hfin).2.2 a
+
+/-- T19.3 **the frontier never decreases, and does not grow while the free list lasts**: `bump ≤ bump'`; and
+if the free list can serve all `n` allocations and `commit` did not consume the old list completely while
+drawing the pages for the new free-list pages (`exhausted = false`), then `bump' = bump`. -/
+theorem T19_3_bump (cap : Nat) (s : State) (n : Nat) (freed : List Nat) (r : Committed)
+    (hfin : finish cap s n freed = some r) :
+    s.bump ≤ r.state.bump ∧
+    (n ≤ (itemsOf s.portions).length → r.exhausted = false → r.state.bump = s.bump) := by
+  unfold finish at hfin
+  simp only at hfin
+  obtain ⟨c1, _, c3, _⟩ := commit_spec hfin
+  simp only at c1 c3
+  refine ⟨by omega, ?_⟩
+  intro hn hex
+  have := (discardP_spec s.portions n s.released).2.1
+  rw [c3 hex, this]
+  omega
+
+/-! Non-vacuity (capacity 2).  Frontier 6, free list: page 3 holding the free pages 5 and 4 (5 on top); live
+pages 1 and 2.  A sync allocates three pages (5, 4 and the fresh page 6) and frees page 1: the old list is used
+up, its page 3 and page 1 go into a new free-list page drawn from the frontier (7); afterwards
+tracked = {7, 3, 1}, live = {2, 5, 4, 6}, frontier 8. -/
+def exStart : State := { portions := [(3, [5, 4])], released := [], pop := false, bump := 6 }
+
+example : handedOut exStart 3 = [5, 4, 6] := by decide
+
+example : finish 2 exStart 3 [1] =
+    some { state := { portions := [(7, [3, 1])], released := [], pop := false, bump := 8 },
+           written := [7], exhausted := true } := by decide
+
+def exAfter : Committed :=
+  { state := { portions := [(7, [3, 1])], released := [], pop := false, bump := 8 }, written := [7], exhausted := true }
+
+example : (∀ a, (a ∈ [7, 3, 1] ∨ a ∈ liveAfter [1, 2] [1] (handedOut exStart 3)) ↔ (1 ≤ a ∧ a < 8)) ∧
+    (∀ a, ¬ (a ∈ [7, 3, 1] ∧ a ∈ liveAfter [1, 2] [1] (handedOut exStart 3))) := by
+  have h := T19_2_conservation 2 exStart 3 [1] [1, 2] exAfter (by decide) rfl
+    (by intro a; simp [exStart, pagesOf]; omega) (by intro a; simp [exStart, pagesOf]; omega)
+    (by decide) (by decide) (by decide) (by decide) (by decide)
+  exact ⟨h.1, h.2.1⟩
+
+/-- a sync served entirely by the free list (capacity 2; one allocation, one pop for the new head page, out of a
+list of four free pages): the frontier stays at 9 -/
+example : (finish 2 { portions := [(3, [5, 4]), (6, [8, 7])], released := [], pop := false, bump := 9 } 1 [1]).map
+    (fun r => (r.state.bump, r.exhausted, r.state.portions)) = some (9, false, [(4, [3, 1]), (6, [8, 7])]) := by decide
+
+/-- **Observation (not claimed by any theorem above).**  `commit` does not only write fresh pages: when its
+first `pop` empties the head and the portion below is full, that untouched full portion is handed to
+`encode_head` again by `push_and_encode` (`head_full` is true for it) and is written at its OLD page number with
+its old content.  Here (capacity 2): head page 1 holding {2}, below it the full page 10 holding {12, 11}; one
+page (3) is freed: the pages written are 10 (in place, unchanged) and 2.  The Rust code does the same
+(checked with a unit test on `FreeList::commit`, portions `[(10, full), (1, [2])]`, push `[3]`: written pages
+`[10, 2]`, page 10 byte-identical). -/
+example : (commit 2 { portions := [(1, [2]), (10, [12, 11])], released := [], pop := false, bump := 100 } [3]).map
+    (fun r => (r.written, r.state.portions)) = some ([10, 2], [(2, [1, 3]), (10, [12, 11])]) := by decide
+
+/-- bounded evidence for what the conditional theorems assume: on every well-shaped list (capacity 2, 3, 4; see
+`Store/FreeListBounded.lean` for the ranges) `finish` answers `some` and the new list is well-shaped. -/
+theorem T19_4_no_panic_bounded : checkAll 2 3 8 6 = true ∧ checkAll 3 2 9 6 = true ∧ checkAll 4 1 9 8 = true :=
+  ⟨bounded_cap2, bounded_cap3, bounded_cap4⟩
 
 end Nomt.C19
